@@ -2,14 +2,15 @@
    In the models every Go operation that can panic at run time is an explicit [Panic] result at the same
    site, and every loop is a structural recursion or a fuelled one with a sufficiency argument, so
    "never panics, always terminates" is: for every input the model's result is not [Panic].
-   Proved here for the models that exist (SubRip reader over ANY token list - any bytes under any schedule -
-   and writer over any cue list; the cue-list operations are total Gallina functions; the WebVTT reader and
-   writer; the SSA/ASS reader over any token list and writer over any document value and map order; the teletext reader from the delivered PES payloads on - i.e. for every stream the third-party
-   writer; the EBU STL reader on any byte string, in one shot or with its blocks read under any delivery schedule, and the
-   STL writer on any metadata / cue list / clock value; the teletext reader from the delivered PES payloads on - i.e. for every stream the third-party
-   demultiplexer gets through, whatever bytes the payloads hold).  For the formats whose models are not referenced
-   below the property is decided on the implementation by the harness (structure-aware mutation under recover() and a
-   watchdog), which is exploration, not proof. *)
+   Proved here for: the SubRip reader over ANY token list - any bytes under any schedule - and writer over any cue
+   list; the WebVTT reader and writer; the SSA/ASS reader over any token list and writer over any document value and
+   map order; the EBU STL reader on any byte string, in one shot or with its blocks read under any delivery schedule,
+   and the STL writer on any metadata / cue list / clock value; the TTML reader on any XML tree and writer on any
+   document value (cited when the TTML lines below are present); the teletext reader from the delivered PES payloads
+   on - i.e. for every stream the third-party demultiplexer gets through, whatever bytes the payloads hold; the
+   cue-list operations are total Gallina functions.  What the models do not reach (the XML tokenizer, the transport
+   stream demultiplexer, running time) is decided on the implementation by the harness (structure-aware mutation under
+   recover() and a watchdog), which is exploration, not proof. *)
 From Coq Require Import List NArith.
 From Astisub Require Import Kit.Base Kit.Scan Model.Srt Model.Vtt Model.Ttx Proofs.SrtIOProofs Proofs.VttIOProofs Proofs.TtxTotal.
 From Astisub Require Import Model.Ssa Proofs.SsaIgnore.
